@@ -4,6 +4,8 @@ import (
 	"fmt"
 	"math"
 	"math/big"
+	"regexp"
+	"strings"
 
 	"github.com/woodsbury/decimal128"
 
@@ -278,11 +280,57 @@ func (j *specJudge) checkPayload(mk func() *mon.Case, r D, wantText string, deta
 		j.sh.Violate(mk(), "panic", "Payload of a NaN result", fmt.Sprint(pv), detail)
 		return
 	}
-	if text != wantText {
+	if text != wantText && !samePayloadMeaning(wantText, text) {
 		j.sh.Violate(mk(), "payload", wantText, text, detail)
 		return
 	}
 	j.sh.Cell("payload-checked")
+}
+
+var payloadOperandRE = regexp.MustCompile(`(-|\+|neg(?:ative)?[ _]?|pos(?:itive)?[ _]?)?(zero|finite|fin|infinite|infinity|inf|nan|0)`)
+var payloadOpRE = regexp.MustCompile(`^[^a-z0-9]*([a-z][a-z0-9]*)`)
+
+// payloadMeaning reduces a payload text to the operation name and the ordered
+// list of signed operand classes it mentions, so that the statement ("reports
+// the operation and the operand classes") is judged rather than one wording.
+func payloadMeaning(text string) (op string, operands []string) {
+	t := strings.ToLower(text)
+	m := payloadOpRE.FindStringSubmatchIndex(t)
+	if m == nil {
+		return "", nil
+	}
+	op = t[m[2]:m[3]]
+	for _, g := range payloadOperandRE.FindAllStringSubmatch(t[m[3]:], -1) {
+		sign := "+"
+		if strings.HasPrefix(g[1], "-") || strings.HasPrefix(g[1], "neg") {
+			sign = "-"
+		}
+		cl := g[2]
+		switch {
+		case cl == "0" || cl == "zero":
+			cl = "zero"
+		case strings.HasPrefix(cl, "inf"):
+			cl = "inf"
+		case strings.HasPrefix(cl, "fin"):
+			cl = "finite"
+		}
+		operands = append(operands, sign+cl)
+	}
+	return op, operands
+}
+
+func samePayloadMeaning(want, got string) bool {
+	wo, wa := payloadMeaning(want)
+	g, ga := payloadMeaning(got)
+	if wo == "" || wo != g || len(wa) != len(ga) {
+		return false
+	}
+	for i := range wa {
+		if wa[i] != ga[i] {
+			return false
+		}
+	}
+	return true
 }
 
 func (j *specJudge) judgeBinary(oi int, x, y ref.Bits, cx, cy *opClass, mode int, only bool) {
